@@ -1,6 +1,7 @@
 package main
 
 import (
+	"sort"
 	"verif/mc"
 )
 
@@ -33,6 +34,15 @@ func c08Hooks(level int) limHooks {
 			if ref.cfg.algo == "gradient2" {
 				rtts = append([]int64{b / 4, b / 2}, rtts...)
 			}
+			// strictly ascending, without duplicates (with a tiny baseline b+b/2 collapses onto b)
+			sort.Slice(rtts, func(i, j int) bool { return rtts[i] < rtts[j] })
+			uniq := rtts[:0]
+			for i, r := range rtts {
+				if i == 0 || r != rtts[i-1] {
+					uniq = append(uniq, r)
+				}
+			}
+			rtts = uniq
 			for _, infl := range []int{0, (est + 1) / 2, est, 2*est + 1} {
 				for _, drop := range []bool{false, true} {
 					var ests []int
